@@ -196,6 +196,12 @@ def traced(e):
         return True
     if e["k"] == "call" and e["f"] == "nat":
         return True  # nat(2) is a Guppy call in comptime mode
+    if e["k"] == "idx" and e["e"]["k"] in ("tup", "arr") and isinstance(e.get("i"), int):
+        # a literal index into a tuple / list display is the selected element (in comptime mode a Python value
+        # if that element is a constant, whatever the other elements are)
+        elems = e["e"].get("es") or e["e"].get("elems") or []
+        if 0 <= e["i"] < len(elems):
+            return traced(elems[e["i"]])
     return any(traced(ch) for ch in children(e))
 
 
@@ -819,7 +825,13 @@ def strategies(excl, shard=0, nshards=1):
                 return self.access("float", d)
             which = self.ri(0, 2)
             if which == 0:
-                return CALL("g_scale", [self.num_operand(d - 1), self.int_(d - 1, True)], "float")
+                x = self.num_operand(d - 1)
+                if x["t"] != "float" and x["k"] not in ("p", "c", "bin", "un"):
+                    # @guppy widens an int/nat *variable, constant or operator result* passed to a float parameter
+                    # but rejects other int-valued argument expressions (call results, indexing, field access) with
+                    # "Expected float, got int": not an operation common to both modes, so it is made explicit
+                    x = CALL("float", [x], "float")
+                return CALL("g_scale", [x, self.int_(d - 1, True)], "float")
             if which == 1:
                 return CALL("g_getv", [self.struct_(d - 1)], "float")
             return {"k": "idx", "e": CALL("g_swap", [self.tup_if(d - 1)], "tuple[float, int]"), "i": 0, "t": "float"}
